@@ -46,7 +46,7 @@ var pkgClauseRe = regexp.MustCompile(`(?m)^package (\w+)`)
 
 func init() {
 	register("C20", func(c *engine.Ctx) {
-		c.Rule = "sets of 1..4 schema files in up to three directories, each with its own $id, distinct type names, acyclic cross-file references (to a file root or to a file's definition), and a package + output file mapped per id (some sharing a package, some sharing a file); the CLI binary is run in a sandbox for every argument order (all permutations up to 3 files, 8 sampled for 4) and once more with an unrelated schema added. Judged: exit 0; every output file byte-identical across argument orders; each schema's root type is declared exactly once, in the file mapped to its id, under the mapped package clause; a cross-package reference is written pkg.Name with a matching import; all emitted packages build together (go build ./...); adding the unrelated file changes no other output. Distinct = distinct (file count, sharing pattern, reference pattern)."
+		c.Rule = "sets of 1..4 schema files in up to three directories, each with its own $id, distinct type names, acyclic cross-file references (to a file root or to a file's definition), and a package + output file mapped per id (some sharing a package, some sharing a file); the CLI binary is run in a sandbox for every argument order (all permutations up to 3 files, 8 sampled for 4) and once more with an unrelated schema added. Judged: exit 0; every output file byte-identical across argument orders; each schema's root type and each of its definitions is declared exactly once, in the file mapped to its id, under the mapped package clause (sets in which an earlier file's definition is named like a later file's root type are judged on the definitions only: K15); a cross-package reference is written pkg.Name with a matching import; all emitted packages build together (go build ./...); adding the unrelated file changes no other output. Distinct = distinct (file count, sharing pattern, reference pattern)."
 		c.Proofs([]string{"GJS.Props.C20"}, []string{
 			"GJS.Props.C20.route_by_mapping", "GJS.Props.C20.route_default", "GJS.Props.C20.route_independent_of_other_mappings",
 			"GJS.Props.C20.begin_same_file_same_pkg_shares", "GJS.Props.C20.begin_same_file_other_pkg_conflicts", "GJS.Props.C20.begin_conflict_symmetric",
@@ -84,6 +84,18 @@ func init() {
 				f.schema = M{"$id": f.id, "type": "object", "properties": props, "required": []any{"own" + name[4:]},
 					"$defs": M{"Def" + strings.ToUpper(name[4:]): M{"type": "object", "properties": M{"d" + name[4:]: M{"type": "boolean"}}}}}
 				files = append(files, f)
+			}
+			// name coincidence: a definition of an earlier file is named like a later file's root type and both go to
+			// the same output.  Which of the two keeps the bare name is the listed finding K15; what is judged here
+			// is that every DEFINITION of every file is still emitted exactly once, in every argument order.
+			coincide := onePkg && n >= 2 && c.R.P(0.4)
+			if coincide {
+				for i := range files {
+					files[i].out = "out/all/all.go"
+				}
+				i := c.R.Intn(n - 1)
+				j := c.R.Range(i+1, n-1)
+				files[i].schema["$defs"].(M)[files[j].root] = M{"type": "object", "properties": M{"co": M{"type": "string"}}}
 			}
 			// acyclic references: file i may refer to file j > i
 			refPattern := ""
@@ -132,7 +144,7 @@ func init() {
 			}
 			var ref map[string]string
 			var refWD string
-			shape := fmt.Sprintf("n=%d onePkg=%v refs=%s", n, onePkg, refPattern)
+			shape := fmt.Sprintf("n=%d onePkg=%v coincide=%v refs=%s", n, onePkg, coincide, refPattern)
 			replayBase := M{"kind": "cli-multi", "files": func() map[string]string {
 				m := map[string]string{}
 				for _, f := range files {
@@ -156,6 +168,29 @@ func init() {
 						replayBase["stderr"] = clip(res.Stderr, 500)
 						c.Fail("oracle", "a valid multi-file invocation fails: "+clip(res.Stderr, 200), replayBase, false)
 					}
+					continue
+				}
+				// every definition Def<X> of every file is declared exactly once, in the file mapped to its schema
+				for _, f := range files {
+					dn := "Def" + strings.ToUpper(f.id[len(f.id)-1:])
+					declared, where := 0, ""
+					for name, data := range outs {
+						k := len(regexp.MustCompile(`(?m)^type `+dn+` `).FindAllString(data, -1))
+						declared += k
+						if k > 0 {
+							where = name
+						}
+					}
+					if declared != 1 || where != f.out {
+						fails++
+						if fails <= 3 {
+							replayBase["order"] = perm
+							c.Fail("oracle", fmt.Sprintf("definition %s of %s is declared %d time(s), in %q; expected once in %q (argument order %v)", dn, f.id, declared, where, f.out, perm), replayBase, false)
+						}
+					}
+				}
+				if coincide {
+					c.Count("c20", "name-coincidence set (root-type and byte-equality oracles not applied: K15)")
 					continue
 				}
 				if ref == nil {
